@@ -84,14 +84,17 @@ def run_tlc(
     heap: str = "8g",
     stack: str | None = None,
     deque: bool = False,
+    lib: Path | None = None,
 ) -> TlcResult:
     """Run TLC on specdir/module.tla with config cfg (default module.cfg).  Output is captured."""
     meta = wd / ("meta_" + module + "_" + str(int(time.time() * 1000) % 10**9))
-    cmd = ["java", "-XX:+UseParallelGC", f"-Xmx{heap}"]
+    cmd = ["java", "-XX:+UseSerialGC" if str(workers) == "1" else "-XX:+UseParallelGC", f"-Xmx{heap}"]
     if stack:
         cmd.append(f"-Xss{stack}")
     if deque:
         cmd.append("-Dtlc2.tool.queue.IStateQueue=StateDeque")
+    if lib:
+        cmd.append(f"-DTLA-Library={lib}")
     cmd += ["-cp", TLA_CP, "tlc2.TLC", "-workers", str(workers), "-metadir", str(meta), "-noGenerateSpecTE"]
     if cfg:
         cmd += ["-config", cfg]
